@@ -310,17 +310,17 @@ __attribute__((noinline)) void scrub_stack() {
 // 512 bits of numerator+denominator.  Beyond that, intermediate quantities (coefficient x bound,
 // multiplier x rhs) can pass the library's in-band infinity 1e150 and the floating-point stages may
 // legitimately be unable to classify the LP, which the exact driver reports as a non-definitive status.
-static bool moderate_num(const Q &v) {
-  if (v == 0 || !is_fin(v)) return true;
+static bool moderate_num(const Q &v, bool may_be_infinite = false) {
+  if (v == 0 || (may_be_infinite && !is_fin(v))) return true;     // only column bounds and ranges have an in-band infinity
   static const Q hi("1000000000000000000000000000000"), lo = Q(1) / hi;   // 1e30
   Q a = abs(v);
   if (a > hi || a < lo) return false;
   return mpz_sizeinbase(v.get_num_mpz_t(), 2) + mpz_sizeinbase(v.get_den_mpz_t(), 2) <= 512;
 }
 bool model_is_moderate(const Model &m) {
-  for (auto &c : m.cols) if (!moderate_num(c.obj) || !moderate_num(c.lo) || !moderate_num(c.up)) return false;
+  for (auto &c : m.cols) if (!moderate_num(c.obj) || !moderate_num(c.lo, true) || !moderate_num(c.up, true)) return false;
   for (auto &r : m.rows) {
-    if (!moderate_num(r.rhs) || !moderate_num(r.range)) return false;
+    if (!moderate_num(r.rhs) || !moderate_num(r.range, true)) return false;
     for (auto &kv : r.a) if (!moderate_num(kv.second)) return false;
   }
   return true;
